@@ -11,16 +11,21 @@ def watPF (F : List String) (p : Priv) (x : WP) : Priv := if F.contains x.name t
 theorem fire_errs (s : St) (n : String) : (fire s n).errs = s.errs := by
   unfold fire; split <;> simp [applyCfg]
 
+theorem fire_named (s : St) (n : String) : (fire s n).named = s.named := by
+  unfold fire; split <;> simp [applyCfg]
+
 theorem doWatch_privF (s : St) (x : WP) :
     (doWatch s x).priv = watPF s.failW s.priv x ∧ (doWatch s x).failW = s.failW ∧ (doWatch s x).failU = s.failU ∧
-    (doWatch s x).fx = s.fx ∧
+    (doWatch s x).fx = s.fx ∧ (doWatch s x).named = s.named ∧
     (s.watcher.isSome = true → (doWatch s x).watcher.isSome = true ∧
-      (doWatch s x).errs = s.errs + (if s.failW.contains x.name then 1 else 0)) := by
+      (doWatch s x).errs = s.errs + (if s.failW.contains x.name then errNOf s.named x.name else 0)) := by
   unfold doWatch
   simp only []
   obtain ⟨hp, hw, hu, hf⟩ := fire_priv { s with log := s!"watch:{wpStr x}" :: s.log } x.name
   have he := fire_errs { s with log := s!"watch:{wpStr x}" :: s.log } x.name
-  generalize fire { s with log := s!"watch:{wpStr x}" :: s.log } x.name = t at hp hw hu hf he
+  have hn := fire_named { s with log := s!"watch:{wpStr x}" :: s.log } x.name
+  generalize fire { s with log := s!"watch:{wpStr x}" :: s.log } x.name = t at hp hw hu hf he hn
+  have hn' : t.named = s.named := hn
   have hw' : t.failW = s.failW := hw
   have hpw : t.watcher = s.watcher := by have := congrArg Priv.watcher hp; simpa [St.priv] using this
   have hpl : t.localSet = s.localSet := by have := congrArg Priv.localSet hp; simpa [St.priv] using this
@@ -30,44 +35,47 @@ theorem doWatch_privF (s : St) (x : WP) :
   cases hws : s.watcher with
   | none =>
     simp only [hpw, hws]
-    refine ⟨?_, hw', hu, hf, fun h => by simp at h⟩
+    refine ⟨?_, hw', hu, hf, hn', fun h => by simp at h⟩
     by_cases hc : s.failW.contains x.name = true <;> simp [hc, St.priv, hws, hpw, hpl, hpt]
   | some kr =>
     obtain ⟨k, reg⟩ := kr
     simp only [hpw, hws, hw']
     by_cases hc : s.failW.contains x.name = true
     · simp only [hc, if_true]
-      refine ⟨?_, ?_, ?_, ?_, ?_⟩
+      refine ⟨?_, ?_, ?_, ?_, ?_, ?_⟩
       · simp [St.priv, hpw, hws, hpl, hpt]
       · first | trivial | exact hw'
       · first | trivial | exact hu
       · first | trivial | exact hf
-      · intro _; exact ⟨by simp [hpw, hws], by simp [he']⟩
+      · first | trivial | exact hn'
+      · intro _; exact ⟨by simp [hpw, hws], by simp [he', hn']⟩
     · simp only [hc, Bool.false_eq_true, if_false]
-      refine ⟨?_, ?_, ?_, ?_, ?_⟩
+      refine ⟨?_, ?_, ?_, ?_, ?_, ?_⟩
       · simp [St.priv, hws, hpl, hpt]
       · first | trivial | exact hw'
       · first | trivial | exact hu
       · first | trivial | exact hf
+      · first | trivial | exact hn'
       · intro _; exact ⟨rfl, by simp [he']⟩
 
 theorem foldl_watch_privF (xs : List WP) (s : St) :
     (xs.foldl doWatch s).priv = xs.foldl (watPF s.failW) s.priv ∧ (xs.foldl doWatch s).failW = s.failW ∧
-    (xs.foldl doWatch s).failU = s.failU ∧ (xs.foldl doWatch s).fx = s.fx ∧
-    (s.watcher.isSome = true → (xs.foldl doWatch s).errs = s.errs + (xs.filter (fun x => s.failW.contains x.name)).length) := by
+    (xs.foldl doWatch s).failU = s.failU ∧ (xs.foldl doWatch s).fx = s.fx ∧ (xs.foldl doWatch s).named = s.named ∧
+    (s.watcher.isSome = true → (xs.foldl doWatch s).errs = s.errs +
+      ((xs.filter (fun x => s.failW.contains x.name)).map (fun x => errNOf s.named x.name)).sum) := by
   induction xs generalizing s with
-  | nil => exact ⟨rfl, rfl, rfl, rfl, fun _ => by simp⟩
+  | nil => exact ⟨rfl, rfl, rfl, rfl, rfl, fun _ => by simp⟩
   | cons x xs ih =>
-    obtain ⟨a, b, c, d, e⟩ := doWatch_privF s x
-    obtain ⟨a', b', c', d', e'⟩ := ih (doWatch s x)
+    obtain ⟨a, b, c, d, n, e⟩ := doWatch_privF s x
+    obtain ⟨a', b', c', d', n', e'⟩ := ih (doWatch s x)
     simp only [List.foldl_cons]
-    refine ⟨by rw [a', a, b], b'.trans b, c'.trans c, d'.trans d, ?_⟩
+    refine ⟨by rw [a', a, b], b'.trans b, c'.trans c, d'.trans d, n'.trans n, ?_⟩
     intro hsome
     obtain ⟨e1, e2⟩ := e hsome
-    rw [e' e1, e2, b]
+    rw [e' e1, e2, b, n]
     by_cases hc : s.failW.contains x.name = true
     · rw [List.filter_cons_of_pos (by simpa using hc)]
-      simp only [hc, if_true, List.length_cons]; omega
+      simp only [hc, if_true, List.map_cons, List.sum_cons]; omega
     · rw [List.filter_cons_of_neg (by simpa using hc)]
       simp only [hc, Bool.false_eq_true, if_false]; omega
 
@@ -144,23 +152,50 @@ theorem dropFold_errs (ds : List WP) : ∀ (s : St) (k : Kind) (reg : List WP), 
     rw [this, he]
 
 
+theorem doUnwatch_named (s : St) (x : WP) : (doUnwatch s x).named = s.named := by
+  unfold doUnwatch
+  simp only []
+  have hn := fire_named { s with log := s!"unwatch:{x.name}" :: s.log } x.name
+  generalize fire { s with log := s!"unwatch:{x.name}" :: s.log } x.name = t at hn
+  have hn' : t.named = s.named := hn
+  split
+  · split <;> exact hn'
+  · exact hn'
+
+theorem foldl_unwatch_named (xs : List WP) (s : St) : (xs.foldl doUnwatch s).named = s.named := by
+  induction xs generalizing s with
+  | nil => rfl
+  | cons x xs ih => simp only [List.foldl_cons]; rw [ih, doUnwatch_named]
+
+theorem ensureWatcher_named (s : St) : (ensureWatcher s).named = s.named := by
+  unfold ensureWatcher; simp only []; split
+  · split <;> rfl
+  · rfl
+
+/-- the runtime errors one iteration raises: for every failing registration attempt, one per path its notify error names
+    (one, naming the configured path, when it names none) -/
+def iterationErrs (s : St) : Nat :=
+  (((s.cfg.paths.filter (fun p => !(ensureWatcher s).localSet.contains p)).filter (fun x => s.failW.contains x.name)).map
+    (fun x => errNOf s.named x.name)).sum
+
 /-- **one iteration with failing registrations** (repaired worker, no unwatch failures, non-empty configuration) -/
 theorem iteration_faults (s : St) (hf : s.fx.f8a = true) (hU : s.failU = []) (hs : Sync' s.priv) (hc : NodupNames s.cfg.paths)
     (hne : s.cfg.paths ≠ []) :
     Sync' (iteration s).priv ∧
     (∃ reg, (iteration s).watcher = some (s.cfg.kind, reg) ∧ (iteration s).wtype = s.cfg.kind ∧
       ∀ x, x ∈ reg ↔ x ∈ s.cfg.paths ∧ (x ∈ (ensureWatcher s).localSet ∨ s.failW.contains x.name = false)) ∧
-    (iteration s).errs = s.errs +
-      ((s.cfg.paths.filter (fun p => !(ensureWatcher s).localSet.contains p)).filter (fun x => s.failW.contains x.name)).length ∧
+    (iteration s).errs = s.errs + iterationErrs s ∧
     (iteration s).failW = s.failW ∧ (iteration s).failU = [] ∧ Later (iteration s) s := by
-  unfold iteration
+  unfold iteration iterationErrs
   have hemp : ¬ s.cfg.paths.isEmpty = true := by intro h; exact hne (by simpa using h)
   simp only [hemp, Bool.false_eq_true, if_false]
   -- step 1: the watcher
+  have hnm1 := ensureWatcher_named s
   have h1 : ∃ reg1, (ensureWatcher s).priv.watcher = some (s.cfg.kind, reg1) ∧ (ensureWatcher s).priv.wtype = s.cfg.kind ∧
       NodupNames reg1 ∧ (∀ x, x ∈ reg1 ↔ x ∈ (ensureWatcher s).priv.localSet) ∧ (ensureWatcher s).priv.localSet.Nodup ∧
       (ensureWatcher s).failW = s.failW ∧ (ensureWatcher s).failU = [] ∧ (ensureWatcher s).errs = s.errs ∧
       (ensureWatcher s).cfg = s.cfg ∧ Later (ensureWatcher s) s := by
+    clear hnm1
     unfold ensureWatcher
     simp only []
     by_cases hcond : (s.watcher.isNone || s.wtype != s.cfg.kind) = true
@@ -200,10 +235,12 @@ theorem iteration_faults (s : St) (hf : s.fx.f8a = true) (hU : s.failU = []) (hs
     (fun d hd => (List.mem_filter.mp hd).1)
   have er2 := dropFold_errs (s1.localSet.filter (fun p => !s.cfg.paths.contains p)) s1 s.cfg.kind reg1 fu1
     (List.Nodup.sublist List.filter_sublist nd1) w1 nn1 m1 nd1 (fun d hd => (List.mem_filter.mp hd).1)
+  have hnm2 := foldl_unwatch_named (s1.localSet.filter (fun p => !s.cfg.paths.contains p)) s1
   generalize hs2 : List.foldl doUnwatch s1 (s1.localSet.filter (fun p => !s.cfg.paths.contains p)) = s2 at *
   have hF2 : s2.failW = s.failW := fw2.trans fw1
+  have hN2 : s2.named = s.named := hnm2.trans hnm1
   -- step 3: watches, failing names skipped
-  obtain ⟨pw, fw3, fu3, _, er3⟩ := foldl_watch_privF (s.cfg.paths.filter (fun p => !s1.localSet.contains p)) s2
+  obtain ⟨pw, fw3, fu3, _, _, er3⟩ := foldl_watch_privF (s.cfg.paths.filter (fun p => !s1.localSet.contains p)) s2
   rw [foldl_watPF, pu, hF2] at pw
   have hw2some : s2.watcher.isSome = true := by
     have : s2.priv.watcher = some (s.cfg.kind, reg2) := by rw [pu]; exact w2
@@ -264,7 +301,7 @@ theorem iteration_faults (s : St) (hf : s.fx.f8a = true) (hU : s.failU = []) (hs
     refine ⟨t3.trans (t2.trans t1), ?_, m3⟩
     intro a ha b hb hab
     exact hc a ((hreg a).mp ha).1 b ((hreg b).mp hb).1 hab
-  · rw [er3', hF2, er2, er1]
+  · rw [er3', hF2, hN2, er2, er1]
 
 /-- **without preventing the others**: whatever fails, every configured path whose registration does not fail is
     registered after the iteration -/
@@ -275,12 +312,37 @@ theorem others_are_registered (s : St) (hf : s.fx.f8a = true) (hU : s.failU = []
   obtain ⟨_, ⟨reg, hw, _, hreg⟩, _⟩ := iteration_faults s hf hU hs hc hne
   exact ⟨_, reg, hw, (hreg x).mpr ⟨hx, Or.inr hok⟩⟩
 
-/-- **once per attempt**: the error count grows by exactly the number of failing registration attempts of this iteration -/
+/-- **once per attempt**: the error count grows by exactly what the failing registration attempts of this iteration are
+    worth — one error per path named by the attempt's notify error, one when it names none -/
 theorem errors_once_per_attempt (s : St) (hf : s.fx.f8a = true) (hU : s.failU = []) (hs : Sync' s.priv) (hc : NodupNames s.cfg.paths)
-    (hne : s.cfg.paths ≠ []) :
-    (iteration s).errs = s.errs +
-      ((s.cfg.paths.filter (fun p => !(ensureWatcher s).localSet.contains p)).filter (fun x => s.failW.contains x.name)).length :=
+    (hne : s.cfg.paths ≠ []) : (iteration s).errs = s.errs + iterationErrs s :=
   (iteration_faults s hf hU hs hc hne).2.2.1
+
+/-- when no injected error names more than one path (the common case: the back-end reports the path it was given, another
+    spelling of it, or nothing), that is literally one error per failing attempt -/
+theorem errors_one_per_attempt (s : St) (hf : s.fx.f8a = true) (hU : s.failU = []) (hs : Sync' s.priv) (hc : NodupNames s.cfg.paths)
+    (hne : s.cfg.paths ≠ []) (h1 : ∀ e ∈ s.named, e.2 ≤ 1) :
+    (iteration s).errs = s.errs +
+      ((s.cfg.paths.filter (fun p => !(ensureWatcher s).localSet.contains p)).filter (fun x => s.failW.contains x.name)).length := by
+  rw [errors_once_per_attempt s hf hU hs hc hne]
+  congr 1
+  unfold iterationErrs
+  have one : ∀ n, errNOf s.named n = 1 := by
+    intro n
+    unfold errNOf
+    cases hfd : s.named.find? (·.1 == n) with
+    | none => rfl
+    | some e =>
+      obtain ⟨a, k⟩ := e
+      have := h1 _ (List.mem_of_find?_eq_some hfd)
+      simp only []
+      split
+      · rfl
+      · simp only [] at this; omega
+  generalize (s.cfg.paths.filter (fun p => !(ensureWatcher s).localSet.contains p)).filter (fun x => s.failW.contains x.name) = l
+  induction l with
+  | nil => rfl
+  | cons x l ih => simp only [List.map_cons, List.sum_cons, List.length_cons, one] at ih ⊢; omega
 
 /-- a failing path that was not registered before stays out (and will be retried: it is not in the worker's local set) -/
 theorem failing_path_stays_out (s : St) (hf : s.fx.f8a = true) (hU : s.failU = []) (hs : Sync' s.priv) (hc : NodupNames s.cfg.paths)
